@@ -113,10 +113,15 @@ func (o *Oracle) onInvoke(c *Call, inc *Inc) {}
 
 func (o *Oracle) onReturn(c *Call, inc *Inc) {
 	w := o.w
+	if c.Kind == "restore" {
+		o.checkRestoreReturn(c, inc)
+	}
 	if c.Err != "" {
 		return
 	}
 	switch c.Kind {
+	case "verify":
+		o.checkVerify(c, inc)
 	case "apply":
 		// an acknowledged Apply is a commit report
 		if e, ok := o.entryAt(inc, c.Index, c.Payload); ok {
@@ -243,6 +248,7 @@ func (o *Oracle) finalChecks() {
 			}
 		}
 	}
+	o.finalNotify()
 	// all live FSMs that reached the same index hold the same state (C02)
 	type fs struct {
 		tag string
